@@ -2,12 +2,15 @@
 package registry
 
 import (
+	"verif/props/c10"
 	"verif/props/c11"
 	"verif/sim/core"
 )
 
 func Get(id string) core.Property {
 	switch id {
+	case "C10":
+		return c10.New()
 	case "C11":
 		return c11.New()
 	}
